@@ -305,6 +305,7 @@ func (r *vC07Run) step(step map[string]interface{}) (ev vC07Event, ok bool) {
 		reqCtx = c3
 	}
 	faultMissed := false
+	pepochBefore := int64(r.p.GetEpoch())
 	expire := false
 	t0 := time.Now()
 	defer func() { vC07Stat(a, time.Since(t0)) }()
@@ -502,6 +503,18 @@ func (r *vC07Run) step(step map[string]interface{}) (ev vC07Event, ok bool) {
 			panic("unknown action " + a)
 		}
 	}()
+	if !okFlag && r.p != nil {
+		// The expired deadline makes the call give up on its Raft proposal, but the
+		// proposal may already be queued ("timed out" is not "not applied").  Flush
+		// the Raft pipeline and see whether anything was applied after all: then the
+		// injected fault did not take and the behaviour is repeated.
+		if err := r.srv.getRaft().Barrier(vC07Deadline).Error(); err != nil {
+			faultMissed = true
+		}
+		if int64(r.p.GetEpoch()) != pepochBefore {
+			faultMissed = true
+		}
+	}
 	st := r.state()
 	ok = true
 	if !expire && !r.armStart.IsZero() && time.Since(r.armStart) > vC07Timeout*6/10 {
